@@ -134,17 +134,58 @@ def insertByAddr (h : Host) : List Host → List Host
 by its specification: on address-distinct input the ascending permutation is unique). -/
 def sortByAddr (l : List Host) : List Host := l.foldr insertByAddr []
 
-/-- one iteration of `RemoveClusterHosts`' loop: `i := sort.Search(n, sorted[i].addr >= addr)`; delete `sorted[i]` when its
-address equals `addr`. `sort.Search` is modelled by its specification (smallest index satisfying the predicate). -/
+/-- SPECIFICATION of one iteration of `RemoveClusterHosts`' loop on a sorted slice: at the smallest index whose address is
+`>= addr`, delete that host when its address equals `addr`. The loop as written is `removeStep` below (binary search + the
+regenerated guard and deletion statements); `Lemmas.Updates.removeStep_eq_removeSorted` proves the two equal on sorted slices. -/
 def removeSorted : List Host → String → List Host
   | [], _ => []
   | h :: t, a => if a ≤ h.addr then (if h.addr = a then t else h :: t) else h :: removeSorted t a
+
+/-- Go's `sort.Search(n, f)` as written in the standard library (binary search: `i, j := 0, n; for i < j { h := (i+j)/2;
+if !f(h) { i = h+1 } else { j = h } }; return i`). `fuel` bounds the iterations (`j - i` shrinks in every one). On a
+predicate that is not monotone (an unsorted slice) it still returns what the Go loop returns. -/
+def goSearchAux (f : Nat → Bool) : Nat → Nat → Nat → Nat
+  | 0, i, _ => i
+  | fuel + 1, i, j =>
+    if i < j then
+      let h := (i + j) / 2
+      if !f h then goSearchAux f fuel (h + 1) j else goSearchAux f fuel i h
+    else i
+
+def goSearch (n : Nat) (f : Nat → Bool) : Nat := goSearchAux f (n + 1) 0 n
+
+/-- address of element `k` of the slice (`""` out of range: never read there by a guarded access) -/
+def addrAt (l : List Host) (k : Nat) : String :=
+  match l[k]? with
+  | some h => h.addr
+  | none => ""
+
+/-- one iteration of `RemoveClusterHosts`' loop AS WRITTEN, over a deletion statement `del`:
+`i := sort.Search(len, pred); if found { del }` with the regenerated predicate and guard. -/
+def removeStepWith (del : List Host → Nat → List Host) (l : List Host) (a : String) : List Host :=
+  let i := goSearch l.length (Gen.Updates.removeSearchPred l.length (addrAt l) a)
+  if Gen.Updates.removeFound l.length (addrAt l) a i then del l i else l
+
+/-- … with the regenerated deletion statement(s) -/
+def removeStep (l : List Host) (a : String) : List Host := removeStepWith Gen.Updates.removeDelete l a
+
+/-- the whole handler over a deletion statement: collect, (sort,) loop over the addresses, `NewHostSet` -/
+def removeHostsWith (del : List Host → Nat → List Host) (addrs : List String) (old : List Host) : List Host :=
+  dedup (addrs.foldl (removeStepWith del) (if Gen.Updates.removeHosts_sorts then sortByAddr old else old))
+
+/-- the "move the last host into the slot and shorten the slice" deletion (`s[i] = s[len-1]; s = s[:len-1]`): NOT what the
+code does — it breaks the sort order the next `sort.Search` of the same call relies on; used only for the machine-checked
+negative witness in `Props/C12`. -/
+def swapLastDelete (l : List Host) (i : Nat) : List Host :=
+  (match l[l.length - 1]? with
+   | some x => l.set i x
+   | none => l).take (l.length - 1)
 
 /-- the host-update handlers of `cluster_manager.go`, as functions old hosts → new hosts -/
 def replaceHosts (hs : List Host) (_old : List Host) : List Host := dedup hs                    -- NewSimpleHostHandler
 def appendHosts (hs : List Host) (old : List Host) : List Host := dedup (hs ++ old)             -- AppendSimpleHostHandler
 def removeHosts (addrs : List String) (old : List Host) : List Host :=                          -- RemoveClusterHosts' handler
-  dedup (addrs.foldl removeSorted (sortByAddr old))
+  removeHostsWith Gen.Updates.removeDelete addrs old
 
 /-- live cluster: the configuration it was created from (`tag` stands for every `ClusterInfo` field) + its host set -/
 structure LiveCluster where
